@@ -37,7 +37,7 @@ func Check() *engine.Check {
 			"only at PEM block boundaries +-1 and every 64th offset) and with every single block removed, x {jwt signer, tls key store, " +
 			"http message signatures} x {construction, OnChanged} x key id {first, named}; trust store loading strict/lenient. " +
 			"(2) rule sets: type-confusion grammar over a valid rule set document (every node replaced by each of null,true,7,\"s\",[],[x],{},{k:v}; " +
-			"every key removed / duplicated; every string value, and every list of strings as a whole, emptied, prefixed with '!', given a broken escape, an unbalanced bracket, an unfinished template, replaced by '*') and every truncation offset of its YAML and JSON text, through ParseRules -> ruleSetProcessor " +
+			"every key removed / duplicated; every string value, and every list of strings as a whole, emptied, prefixed with '!', given a broken escape, an unbalanced bracket, an unfinished template, a segment that is a lone backslash, replaced by '*') and every truncation offset of its YAML and JSON text, through ParseRules -> ruleSetProcessor " +
 			"OnCreated/OnUpdated (scripted and real mechanism catalogue) and through the file_system provider event callback. " +
 			"(3) remote responses: same grammar + every truncation offset x content types {json, form, missing} for JWKS, OAuth2 metadata, " +
 			"introspection, identity, authorization and contextualizer responses through the real mechanisms' Execute. (4) malformed request " +
